@@ -413,12 +413,17 @@ inductive WV where
   | nested (v : Val)              -- a sub-message, shipped by the codec of its own type
 deriving Repr
 
-def wvZero : PT → Bool → WV
-  | .string, true => .strs []
-  | .mapStringBool, _ => .keys []
-  | .msg _, true => .nested (.sources none)     -- (only Sources and Aux are repeated messages; see `decV`)
-  | .msg _, false => .nested (.interval 0 0)
-  | pt, _ => .sc (wsZero pt)
+/-- a message field nobody wrote, as the decoder of a field of Go type `g` reads it (the zero value
+of the generated struct field: "", nil, 0, false) -/
+def wvZero (g : GoT) (pt : PT) : WV :=
+  match g with
+  | .expr | .loc | .sortFields => .text []
+  | .strs => .strs []
+  | .keyset => .keys []
+  | .varRefs => .nested (.refs [])
+  | .interval => .nested (.interval 0 0)
+  | .sources => .nested (.sources none)
+  | _ => .sc (wsZero pt)
 
 def refObj (r : VRef) : FObj := fun f =>
   if f = "Val" then .str r.val else if f = "Type" then .int r.ty else if f = "Alias" then .str r.alias else .unmodelled
@@ -553,19 +558,19 @@ def isRepeated (tags : List TagField) (goName : String) : Bool :=
   | none => false
 
 /-- what `decodeProcessorOptions` finds in message field `name`. -/
-def wireOfV (rows : List Row) (o : Obj) (name : String) : Option WV :=
+def wireOfV (rows : List Row) (o : Obj) (g : GoT) (name : String) : Option WV :=
   match ptOfGo optionsTags optionsDesc name with
   | none => none
   | some pt =>
     match rows.find? (fun r => r.encWire == name) with
-    | none => some (wvZero pt (isRepeated optionsTags name))
+    | none => some (wvZero g pt)
     | some r => encV r.enc pt (o r.field)
 
 def shipOptField (rows : List Row) (o : Obj) (r : Row) : Option Val :=
   if r.decWire == "" then
     (if r.dec = .none then some (vzero r.goT) else none)
   else
-    match wireOfV rows o r.decWire with
+    match wireOfV rows o r.goT r.decWire with
     | none => none
     | some w => decV r.goT r.dec w
 
@@ -587,7 +592,7 @@ def rowModelled (r : Row) : Bool :=
   (match r.enc with | .other _ => false | _ => true) && (match r.dec with | .other _ => false | _ => true)
 
 def marshalOK (rows : List Row) (o : Obj) : Bool :=
-  rows.all fun r => r.encWire == "" || (wireOfV rows o r.encWire).isSome
+  rows.all fun r => r.encWire == "" || (wireOfV rows o r.goT r.encWire).isSome
 
 /-- `ProcessorOptions.MarshalBinary` then `UnmarshalBinary`. -/
 def shipOpts (rows : List Row) (o : Obj) : Option (List (String × Val)) :=
